@@ -50,6 +50,9 @@ RUN_TIMEOUT_S = 300
 # hash-seed class and the final world digests are compared across classes by the parent
 CROSS_HASH = {"C17": 96}
 MAX_SHRINK_JOBS = 12
+# thorough tier: known findings are confirmed on the minimised trace for at most this many signatures per check (each
+# confirmation is a shrink of up to two minutes; C16 alone hits more than a hundred signature variants of three findings)
+MAX_KNOWN_CONFIRMATIONS = 16
 
 
 def _engine(name):
@@ -332,6 +335,7 @@ def check_main(a):
         known_hit = []
         jobs = []   # (sig, run, finding or None)
         only = os.environ.get("VERIF_ONLY_SIG")
+        n_confirm = 0
         for sig in sorted(by_sig):
             if only and only not in sig:
                 continue
@@ -345,10 +349,11 @@ def check_main(a):
             if unmatched:
                 jobs.append((sig, unmatched[0], None))      # same class, different circumstances
             if matched:
-                if tier == "thorough":
+                if tier == "thorough" and n_confirm < MAX_KNOWN_CONFIRMATIONS:
                     jobs.append((sig, matched[0], finding))     # confirm on the minimised trace
+                    n_confirm += 1
                 else:
-                    known_hit.append(sig)
+                    known_hit.append(sig)                       # matched on the failing run's own network
         if os.environ.get("VERIF_NO_SHRINK"):
             for (sig_, r_, f_) in jobs:
                 print("UNSHRUNK %s engine=%s index=%d" % (sig_, r_["engine"], r_["index"]))
